@@ -7,7 +7,21 @@ Theorems about the model `TTV.AsyncRun` (`Model/Reactor.lean`, `Model/AsyncRun.l
 bookkeeping logic on the virtual-time reactor, for **every** program (any stages, side effects, cleanups, delays),
 every timeout, every set of interrupt instants, both runner variants, both logging options.
 This property is *partial* with respect to the Twisted runtime: Deferred chaining, the log publisher and
-`DebugInfo`/GC are modelled (see `Model/AsyncRun.lean`), and covered only by the correspondence check. -/
+`DebugInfo`/GC are modelled (see `Model/AsyncRun.lean`), and covered only by the correspondence check.
+
+* `holds_model`              : the executable spec `Spec.C14.holds` is true of the model's trace (headline)
+* `C14_bracket`              : exactly one outcome between `startTest` and `stopTest`, `run()` returns
+* `C14_sequential`           : the stages that ran are a prefix of the path (setUp, [test, tearDown], cleanups LIFO);
+                               the next stage starts only after its predecessor's Deferred fired
+* `C14_success_iff`          : success ⇔ in time ∧ every stage clean ∧ no expectation failed ∧ no unflushed logged error
+                               ∧ no dropped failed Deferred ∧ nothing left scheduled
+* `C14_timeout_interrupt`    : not in time ⇒ error; `result.stop()` exactly for an interrupt before the timeout
+* `C14_clean_after`, `C14_observers_restored` : nothing pending, the log observers are the original ones (in order)
+* `C14_in_time_iff_recorded` : the declarative `inTime` ⇔ `Spinner.run` returned the chain's verdict
+* `C14_loop_ends_by_crash`   : the reactor loop ends by a crash within the model's fuel
+
+Proof structure: `Reach` (what a chain step can do) · `Inv1` (queue/clock/spinner invariant of the loop) · `pot`
+(termination) · `Run`/`Susp`/`Fin` (chain invariant through suspensions) · `final_sem` (meaning of the final state). -/
 namespace TTV.Props.C14
 open TTV.Reactor TTV.AsyncRun TTV.Spec.C14
 
